@@ -257,14 +257,20 @@ fn simpler_cfgs(cfg: &Json) -> Vec<Json> {
     with("ignore_merges", json!(false));
     with("extra_vocab", json!([]));
     with("eow_empty", json!(false));
-    if !pre_needs_json(&cfg["pre"]) {
+    // Monotone steps only (json_legacy -> json -> direct, shuffled ->
+    // default_ids -> default) so that the greedy loop terminates.
+    if cfg["route"] == "json_legacy" {
+        with("route", json!("json"));
+    }
+    if cfg["route"] != "direct" && !pre_needs_json(&cfg["pre"]) {
         with("route", json!("direct"));
     }
-    with("route", json!("json"));
-    if cfg["route"] == "direct" {
+    if cfg["vocab"]["kind"] == "shuffled" {
+        with("vocab", json!({"kind": "default_ids", "seed": 0}));
+    }
+    if cfg["route"] == "direct" && cfg["vocab"]["kind"] == "default_ids" && cfg["extra_vocab"].as_array().map(|a| a.is_empty()).unwrap_or(true) && cfg["added_in_vocab"] != true {
         with("vocab", json!({"kind": "default", "seed": 0}));
     }
-    with("vocab", json!({"kind": "default_ids", "seed": 0}));
     with("merges", json!([]));
     let m = cfg["merges"].as_array().cloned().unwrap_or_default();
     for k in [m.len() / 8, m.len() / 4, m.len() / 2, m.len().saturating_sub(1)] {
@@ -283,7 +289,16 @@ fn simpler_cfgs(cfg: &Json) -> Vec<Json> {
 
 fn shrink(case: &Case, kind: &str) -> Case {
     let mut cur = case.clone();
-    let mut budget = 1200usize;
+    let mut budget = 1500usize;
+    let shrink_text_of = |cur: &mut Case, budget: &mut usize| {
+        if let Ok(Ok(t)) = catch(|| build_tokenizer(&cur.cfg)) {
+            let shrunk = shrink_text(&cur.text, budget, &mut |s: &str| matches!(check(&t, s), Ok(o) if o.failure.as_ref().map(|f| f.0 == kind).unwrap_or(false)));
+            cur.text = shrunk;
+        }
+    };
+    // Text first (cheap: the tokenizer is built once), then the config, then
+    // the text again under the simplified config.
+    shrink_text_of(&mut cur, &mut budget);
     for round in 0..2 {
         // Greedy config simplification until nothing applies.
         let mut changed = true;
@@ -303,10 +318,7 @@ fn shrink(case: &Case, kind: &str) -> Case {
             }
         }
         if round == 0 {
-            if let Ok(Ok(t)) = catch(|| build_tokenizer(&cur.cfg)) {
-                let shrunk = shrink_text(&cur.text, &mut budget, &mut |s: &str| matches!(check(&t, s), Ok(o) if o.failure.as_ref().map(|f| f.0 == kind).unwrap_or(false)));
-                cur.text = shrunk;
-            }
+            shrink_text_of(&mut cur, &mut budget);
         }
     }
     cur
@@ -373,6 +385,13 @@ fn run_text(rep: &mut Report, tok: &Tokenizer, cfg: &Json, text: &str) {
             }
             if let Some((kind, detail)) = &o.failure {
                 rep.count(&format!("failures_raw:{}", kind));
+                // Bounded work: one violation per signature is kept anyway.
+                let done = *rep.counters.get("failures_shrunk").unwrap_or(&0);
+                if done >= 60 || rep.n_violations() >= rep.max_violations {
+                    rep.count(&format!("failures_not_shrunk:{}", kind));
+                    return;
+                }
+                rep.count("failures_shrunk");
                 let s = shrink(&Case { cfg: cfg.clone(), text: text.to_string() }, kind);
                 let sdetail = catch(|| build_tokenizer(&s.cfg)).ok().and_then(|t| t.ok()).and_then(|t| check(&t, &s.text).ok()).and_then(|o| o.failure).map(|f| f.1).unwrap_or(detail.clone());
                 let summary = format!(
@@ -464,7 +483,7 @@ pub fn run(args: &Args) {
 
     // ---- random part
     let mut rng = Rng::derive(args.seed, 0xC27_0000 + args.shard as u64);
-    let n_cfg = args.budget(800, 80_000);
+    let n_cfg = args.budget(4_000, 200_000);
     for _ in 0..n_cfg {
         let cfg = rand_cfg(&mut rng);
         let tok = match catch(|| build_tokenizer(&cfg)) {
